@@ -55,6 +55,7 @@ func jStr(v any) string {
 type MatchCtx struct {
 	T0        int64 // unix milliseconds that model time 1000000 (ms) maps to
 	ElapsedMs int64 // real milliseconds since T0 when the reply was read
+	Modes     *deadlineModes
 }
 
 func (m *MatchCtx) absMs(model int64) int64 { return m.T0 + model - 1000000 }
@@ -323,7 +324,11 @@ func matchReply(exp J, obs *Reply, ctx *MatchCtx) bool {
 		if jStr(exp["unit"]) == "s" {
 			got *= 1000
 		}
-		return deadlineOk(jStr(exp["mode"]), want, got, ctx, jStr(exp["unit"]) == "s")
+		mode := jStr(exp["mode"])
+		if mode == "abs" && ctx.Modes != nil {
+			mode = ctx.Modes.mode("", jInt(exp["v"]))
+		}
+		return deadlineOk(mode, want, got, ctx, jStr(exp["unit"]) == "s")
 	}
 	panic("matchReply: unknown expectation type " + jStr(exp["t"]))
 }
